@@ -233,6 +233,13 @@ def clone_part(ctx):
     fbs = os.path.join(lib.ROOT, 'gen', 'c18_clone.fbs')
     rc, out = ctx.gen(fbs, gdir, opts=('-a',))
     if rc != 0: raise lib.BuildFailure('flatcc -a c18_clone.fbs', out)
+    # the same schema as an OLDER version: the union lacks the members Pair and Str (codes 4 and 5 are unknown to it)
+    txt = open(fbs).read()
+    assert 'namespace CT;' in txt and 'union Any { Node, Leaf, Vec3, Pair, Str:string }' in txt
+    fbs_old = os.path.join(ctx.bdir, 'c18_clone_old.fbs')
+    open(fbs_old, 'w').write(txt.replace('namespace CT;', 'namespace CO;').replace('union Any { Node, Leaf, Vec3, Pair, Str:string }', 'union Any { Node, Leaf, Vec3 }'))
+    rc, out = ctx.gen(fbs_old, gdir, opts=('-a',))
+    if rc != 0: raise lib.BuildFailure('flatcc -a c18_clone_old.fbs', out)
     objs = ctx.rt_objs(san=True, defs=['-DNDEBUG'], srcs=['src/runtime/builder.c', 'src/runtime/emitter.c', 'src/runtime/refmap.c', 'src/runtime/verifier.c'], tag='rt_clone')
     exe = ctx.cc([os.path.join(lib.ROOT, 'harness', 'clone_diff.c')] + objs, os.path.join(ctx.bdir, 'clone_diff'), san=True,
                  defs=['-DNDEBUG'], incs=['-I' + gdir, '-I' + os.path.join(lib.ROOT, 'harness')])
@@ -242,8 +249,18 @@ def clone_part(ctx):
 
     def add_case(klass, feats, P, root, mode, mask, use_map, dumps=0, split=0):
         if mode == 'swap': mask &= ~(1 << FBIT['nested'])
-        m = mode if mode == 'clone' else ('%s:%d:%d' % (mode, mask, split) if mode == 'swap' else '%s:%d' % (mode, mask))
-        cases.append((klass, feats, P, root, mode, mask if mode != 'clone' else ALL, use_map, 'run %s %d %d %s' % (m, use_map, dumps, P.tokens())))
+        m = mode if mode in ('clone', 'oldclone') else ('%s:%d:%d' % (mode, mask, split) if mode == 'swap' else '%s:%d' % (mode, mask))
+        cases.append((klass, feats, P, root, mode, mask if mode not in ('clone', 'oldclone') else ALL, use_map, 'run %s %d %d %s' % (m, use_map, dumps, P.tokens())))
+
+    def overlapping_string_vector():
+        """hand-made VERIFIED Node buffer in which the [ubyte] field `bytes` lies inside the string `name`: the vector's
+        length field is the first four characters of the string, so the vector's map key (vec - 4) is the string pointer"""
+        import struct
+        vt = struct.pack('<HH', 30, 12) + b''.join(struct.pack('<H', {1: 4, 12: 8}.get(i, 0)) for i in range(13))
+        b = struct.pack('<I', 36) + vt + b'\0\0'                     # root offset, vtable at 4..34, pad
+        b += struct.pack('<iII', 32, 8, 8)                             # table at 36: soffset to vtable, name -> 48, bytes -> 52
+        b += struct.pack('<I', 5) + bytes([1, 0, 0, 0, 65, 0]) + b'\0\0'   # string at 48: len 5, chars "\1\0\0\0A", NUL; vector at 52: len 1, [65]
+        return b
 
     def family(klass, feats, nprog, sizes):
         for _ in range(nprog):
@@ -279,6 +296,15 @@ def clone_part(ctx):
     P = Prog(); n8 = P.add('N8', '77'); n = P.add('N', 'id=1,nested8=0', (), {'nested8': [n8]})
     add_case('nested8', {'nested8'}, P, n, 'clone', ALL, 0)
     for use_map in (1, 0):
+        raw = overlapping_string_vector()
+        cases.append(('overlap_raw', set(), None, None, 'clone', ALL, use_map, 'raw clone %d 1 %s' % (use_map, raw.hex())))
+    # two-schema cases: source built with the extended union, cloned with the code of the older schema
+    P = Prog(); s0 = P.add('S', '6869'); l1 = P.add('LF', 'name=0', [s0]); ps = P.add('PS', '7'); uv = P.add('UV', '2/1.4/2.5/0.2/1', [l1, ps, s0, l1])
+    n = P.add('N', 'id=1,anys=3', (), {'anys': [uv]})
+    for use_map in (0, 1): add_case('old_schema', {'ustr', 'old'}, P, n, 'oldclone', ALL, use_map)
+    P = Prog(); ps = P.add('PS', '7'); n = P.add('N', 'id=1,any=4/0', (), {'any': [ps]})
+    for use_map in (0, 1): add_case('old_schema', {'ustr', 'old'}, P, n, 'oldclone', ALL, use_map)
+    for use_map in (1, 0):
         P = Prog(); s0 = P.add('S', '6869'); n1 = P.add('N', 'id=1,name=0', (), {'name': [s0]})
         n2 = P.add('N', 'id=2,name=0,left=1,right=1', (), {'name': [s0], 'left': [n1], 'right': [n1]})
         add_case('swap_fixed', set(), P, n2, 'swap', ALL, use_map, split=FBIT['right'])
@@ -305,6 +331,13 @@ def clone_part(ctx):
     family('union_string', {'ustr'}, 40 if T else 5, [6, 15])
     family('uvec_none', {'unone'}, 40 if T else 5, [6, 15])
     family('nested8', {'nested8'}, 80 if T else 8, [4, 10, 20])
+    def family_old(nprog, sizes):
+        for _ in range(nprog):
+            P, root = gen_prog(rng, rng.choice(sizes), {'ustr', 'old'})
+            for use_map in (1, 0):
+                add_case('old_schema', {'ustr', 'old'}, P, root, 'oldclone', ALL, use_map)
+                add_case('old_schema', {'ustr', 'old'}, P, root, 'oldpick', rng.choice([ALL, rng.getrandbits(len(FIELDS))]), use_map)
+    family_old(40 if T else 8, [4, 10, 20, 40])
     family('nested_align', {'nestedA', 'nested8'}, 120 if T else 14, [2, 5, 10, 20])
     # fixed small cases (also documentation of the protocol)
     for use_map in (1, 0):
@@ -329,11 +362,21 @@ def clone_part(ctx):
 
     model_lines, model_expect = [], []
     for i, (klass, feats, P, root, mode, mask, use_map, line) in enumerate(cases):
-        ctx.count(line, klass='clone_%s_%s_%s' % (klass, mode, 'map' if use_map else 'nomap'))
         r = res[i]
+        if klass != 'overlap_raw': ctx.count(line, klass='clone_%s_%s_%s' % (klass, mode, 'map' if use_map else 'nomap'))
         if r == 'SKIP': continue
-        dkey = {'union_string': 'clone-union-string', 'uvec_none': 'clone-union-vector-none', 'nested8': 'clone-nested-alignment'}.get(klass)
+        if klass == 'overlap_raw':
+            ctx.count(line, klass='clone_overlap_raw_%s' % ('map' if use_map else 'nomap'))
+            okr = r.startswith('OK') and ' dstv=0 ' in r and ' val=1 ' in r
+            if not okr:
+                ctx.violation('clone-memo-type-confusion:overlapping-string-vector' if use_map else 'clone-overlap-nomap',
+                              'clone of a VERIFIED buffer whose [ubyte] vector overlaps a string (vector key vec - 4 = string pointer): %s, %s' % (
+                                  'with a reference map the vector is given the string\'s reference, the copy reads bytes = [1,0,0,0,65] instead of [65]' if use_map else 'without a map',
+                                  r.split(' | ')[0][:160]), {'harness_line': line, 'reply': r[:3000], 'refmap': use_map})
+            continue
+        dkey = {'union_string': 'clone-union-string', 'old_schema': 'clone-union-unknown-type', 'uvec_none': 'clone-union-vector-none', 'nested8': 'clone-nested-alignment'}.get(klass)
         what_extra = {'union_string': ' [source holds a string as union member]', 'uvec_none': ' [source holds a NONE element in a union vector]',
+                      'old_schema': ' [source built with union Any { Node, Leaf, Vec3, Pair, Str }, cloned with the code generated from the older union Any { Node, Leaf, Vec3 }: unknown members must read as NONE in a copy that verifies]',
                       'nested8': ' [source holds a nested buffer with 8-byte aligned content]',
                       'nested_align': ' [source holds nested buffers whose roots contain force_align 32/64/128/256 structs]'}.get(klass, '')
         rep = {'harness_line': line if len(line) < 60000 else line[:60000], 'reply': r[:3000], 'mode': mode, 'mask': mask, 'refmap': use_map}
@@ -368,6 +411,7 @@ def clone_part(ctx):
                 viol('sharing', 'with a reference map the copy does not share what the source shares: back references %s in the source, %s in the copy (%s)'
                      % (kv.get('back_src'), kv.get('back_dst'), mode)); continue
             want = len(P.reachable_keys(root, mask, include_root=(mode == 'clone')))
+            if mode.startswith('old'): want = int(kv.get('map', -1))      # objects behind unknown members are not visited
             if int(kv.get('map', -1)) != want:
                 viol('memo', 'reference map holds %s entries after the clone, the source has %d distinct reachable objects (%s)' % (kv.get('map'), want, mode)); continue
             if mode == 'clone' and len(model_lines) < (200 if T else 40) and not any(o['kind'] == 'UX' for o in P.objs):
